@@ -28,7 +28,7 @@ var Keys = []string{"a", "b", "c", "d", "k", "v", "é", " ", "let", ""}
 var plainKeys = []string{"a", "b", "c", "d", "k", "v"}
 
 // Strs is the string palette: mixed encoded widths, repeats, empties.
-var Strs = []string{"", "a", "b", "ab", "ba", "abc", "aa", "abab", "é", "aé", "éa", "aéb", "日本", "a日b", "😀", "a😀b", "é", "�", " a ", "A", "Ab", "10", "2", "x,y,z", "a-b-a", "éé😀éé"}
+var Strs = []string{"", "a", "b", "ab", "ba", "abc", "aa", "abab", "é", "aé", "éa", "aéb", "日本", "a日b", "😀", "a😀b", "é", "�", " a ", "A", "Ab", "10", "2", "x,y,z", "a-b-a", "éé😀éé", "NaN", "Infinity", "-inf", "1e400", "1_0", "0x10", "null", "true"}
 
 // NumTexts is the number palette (JSON spellings).
 var NumTexts = []string{"0", "1", "-1", "2", "3", "4", "5", "10", "1.5", "-2.5", "0.1", "0.2", "0.3", "1.0", "1e0", "10e-1", "0.0", "-0", "100", "1e2", "7", "-7", "9007199254740993", "1e21", "123456789012345678901234567890", "0.5", "2.0"}
@@ -250,6 +250,9 @@ func (g *G) Expr(cur jv.Val, depth int) ast.Expr {
 			lv := g.valueOf(l, cur)
 			if Chance(t, "cmpsame", 1, 2) && lv.K != jv.Null {
 				r = ast.Lit(stripMarks(lv))
+			} else if Chance(t, "cmpnear", 1, 2) {
+				// a value that differs from the left side in exactly one thing
+				r = ast.Lit(NearMiss(t, Respell(t, stripMarks(lv))))
 			} else {
 				r = ast.Lit(Scalar(t))
 			}
@@ -627,8 +630,10 @@ func (g *G) cond(el jv.Val, depth int) ast.Expr {
 		l := g.Chain(el, depth)
 		lv := g.valueOf(l, el)
 		var r ast.Expr
-		if lv.K != jv.Null && Chance(t, "cmpsame", 2, 3) {
+		if lv.K != jv.Null && Chance(t, "cmpsame", 1, 2) {
 			r = ast.Lit(stripMarks(lv))
+		} else if Chance(t, "cmpnear", 1, 2) {
+			r = ast.Lit(NearMiss(t, Respell(t, stripMarks(lv))))
 		} else {
 			r = ast.Lit(Scalar(t))
 		}
